@@ -774,4 +774,214 @@ theorem yearOff_eq (a : Alt) (y t : Int) (hsep : RuleSeparated a (wallStart a y)
     simp only [c, c', if_false]
     by_cases d : E - a.dst.off ≤ t ∧ t < S - a.std.off <;> simp [d]
 
+/-! ### lookup by wall clock: the transition table, any length -/
+
+/-- the table's step function by recursion: `p` is the offset in force before the head transition -/
+def stepOff (z : Zone) : Int → List Transition → Int → Int
+  | p, [], _ => p
+  | p, tr :: rest, t => if tr.time ≤ t then stepOff z (typeAt z tr.idx).off rest t else p
+
+/-- `ℓ` is none of the excluded boundary seconds `T + prevOff` -/
+def NoBoundary (z : Zone) : Int → List Transition → Int → Prop
+  | _, [], _ => True
+  | p, tr :: rest, ℓ => ℓ ≠ tr.time + p ∧ NoBoundary z (typeAt z tr.idx).off rest ℓ
+
+theorem classifies_congr (off off' : Int → Int) (ℓ : Int) (r : Mapped Ltt)
+    (h : ∀ t, t + off t = ℓ ↔ t + off' t = ℓ) : Classifies off' ℓ r → Classifies off ℓ r := by
+  cases r with
+  | none => intro hc t hh; exact hc t ((h t).mp hh)
+  | single x => intro hc t; rw [h t]; exact hc t
+  | ambiguous x y => intro hc; exact ⟨hc.1, fun t => by rw [h t]; exact hc.2 t⟩
+
+/-- on a sorted table the recursive step function is "the last transition at or before `t`" -/
+theorem stepOff_eq (z : Zone) (p : Int) (ts : List Transition) (t : Int) (hs : Sorted ts) :
+    stepOff z p ts t =
+      (match (ts.filter (fun tr => decide (tr.time ≤ t))).getLast? with
+       | some tr => (typeAt z tr.idx).off
+       | none => p) := by
+  induction ts generalizing p with
+  | nil => simp [stepOff]
+  | cons x xs ih =>
+    have hs' : Sorted xs := (List.pairwise_cons.mp hs).2
+    have hx := (List.pairwise_cons.mp hs).1
+    unfold stepOff
+    by_cases c : x.time ≤ t
+    · simp only [c, if_true, List.filter_cons, decide_true]
+      rw [List.getLast?_cons, ih _ hs']
+      cases (xs.filter (fun tr => decide (tr.time ≤ t))).getLast? <;> simp
+    · have : (x :: xs).filter (fun tr => decide (tr.time ≤ t)) = [] := by
+        apply filter_nil_of_gt
+        intro tr htr
+        rcases List.mem_cons.mp htr with e | e
+        · subst e; omega
+        · have := hx tr e; omega
+      rw [this]; simp [c]
+
+/-- later windows lie above the head window -/
+theorem later_ge (z : Zone) (ts : List Transition) : ∀ (p : Int) (lo : Option Int),
+    Sorted ts → sepFrom z ts p lo = true → ∀ tr rest, ts = tr :: rest → ∀ t, tr.time ≤ t →
+    tr.time + min p (typeAt z tr.idx).off ≤ t + stepOff z p ts t := by
+  induction ts with
+  | nil => intro p lo _ _ tr rest h; cases h
+  | cons x xs ih =>
+    intro p lo hs hsep tr rest heq t ht
+    have hs' : Sorted xs := (List.pairwise_cons.mp hs).2
+    cases heq
+    unfold stepOff
+    simp only [ht, if_true]
+    cases xs with
+    | nil => simp only [stepOff]; omega
+    | cons x2 xs2 =>
+      unfold sepFrom at hsep
+      simp only [Bool.and_eq_true] at hsep
+      have hsep2 := hsep.2
+      have hsep2' := hsep2
+      unfold sepFrom at hsep2'
+      simp only [Bool.and_eq_true, decide_eq_true_eq] at hsep2'
+      by_cases c : x2.time ≤ t
+      · have := ih (typeAt z x.idx).off _ hs' hsep2 x2 xs2 rfl t c
+        omega
+      · unfold stepOff; simp only [c, if_false]; omega
+
+/-- offsets are `i32`, transition times stay clear of the `i64` ends (no saturation) -/
+def InRange (z : Zone) (ts : List Transition) : Prop :=
+  (∀ i, -2147483648 ≤ (typeAt z i).off ∧ (typeAt z i).off ≤ 2147483647) ∧
+  (∀ tr ∈ ts, -4611686018427387904 ≤ tr.time ∧ tr.time ≤ 4611686018427387904)
+
+theorem loop_cons_ret (z : Zone) (tr : Transition) (rest : List Transition) (prev : Ltt) (ℓ : Int)
+    (hT : -4611686018427387904 ≤ tr.time ∧ tr.time ≤ 4611686018427387904)
+    (hp : -2147483648 ≤ prev.off ∧ prev.off ≤ 2147483647)
+    (ha : -2147483648 ≤ (typeAt z tr.idx).off ∧ (typeAt z tr.idx).off ≤ 2147483647)
+    (h : ℓ ≤ tr.time + max prev.off (typeAt z tr.idx).off) :
+    fromLocalLoop z (tr :: rest) prev ℓ = fromLocalLoop z [tr] prev ℓ := by
+  unfold fromLocalLoop
+  have s1 : satI64 (tr.time + (typeAt z tr.idx).off) = tr.time + (typeAt z tr.idx).off :=
+    satI64_id (by omega) (by omega)
+  have s2 : satI64 (tr.time + prev.off) = tr.time + prev.off :=
+    satI64_id (by omega) (by omega)
+  dsimp only
+  simp only [s1, s2]
+  generalize (typeAt z tr.idx) = after at *
+  (repeat' split) <;> first | rfl | omega
+
+theorem loop_cons_cont (z : Zone) (tr : Transition) (rest : List Transition) (prev : Ltt) (ℓ : Int)
+    (hT : -4611686018427387904 ≤ tr.time ∧ tr.time ≤ 4611686018427387904)
+    (hp : -2147483648 ≤ prev.off ∧ prev.off ≤ 2147483647)
+    (ha : -2147483648 ≤ (typeAt z tr.idx).off ∧ (typeAt z tr.idx).off ≤ 2147483647)
+    (h : tr.time + max prev.off (typeAt z tr.idx).off < ℓ) :
+    fromLocalLoop z (tr :: rest) prev ℓ = fromLocalLoop z rest (typeAt z tr.idx) ℓ := by
+  conv => lhs; unfold fromLocalLoop
+  have s1 : satI64 (tr.time + (typeAt z tr.idx).off) = tr.time + (typeAt z tr.idx).off :=
+    satI64_id (by omega) (by omega)
+  have s2 : satI64 (tr.time + prev.off) = tr.time + prev.off :=
+    satI64_id (by omega) (by omega)
+  dsimp only
+  simp only [s1, s2]
+  generalize (typeAt z tr.idx) = after at *
+  (repeat' split) <;> first | rfl | omega
+
+/-- the transition-table loop classifies every wall-clock reading other than the excluded boundary
+seconds, for a table of any length whose windows are separated -/
+theorem loop_classifies (z : Zone) (ℓ : Int) (ts : List Transition) : ∀ (prev : Ltt) (lo : Option Int),
+    Sorted ts → sepFrom z ts prev.off lo = true → NoBoundary z prev.off ts ℓ → InRange z ts →
+    (-2147483648 ≤ prev.off ∧ prev.off ≤ 2147483647) →
+    Classifies (stepOff z prev.off ts) ℓ (outMap (fromLocalLoop z ts prev ℓ)) := by
+  induction ts with
+  | nil =>
+    intro prev lo _ _ _ _ _
+    simp only [fromLocalLoop, outMap, Classifies, stepOff]
+    intro t; omega
+  | cons tr rest ih =>
+    intro prev lo hs hsep hnb hr hp
+    have hs' : Sorted rest := (List.pairwise_cons.mp hs).2
+    have hx := (List.pairwise_cons.mp hs).1
+    have hT := hr.2 tr (List.mem_cons_self ..)
+    have ha := hr.1 tr.idx
+    have hr' : InRange z rest := ⟨hr.1, fun x hx' => hr.2 x (List.mem_cons_of_mem _ hx')⟩
+    have hsep' : sepFrom z rest (typeAt z tr.idx).off (some (tr.time + max prev.off (typeAt z tr.idx).off)) = true := by
+      unfold sepFrom at hsep
+      simp only [Bool.and_eq_true] at hsep
+      exact hsep.2
+    -- beyond the head transition the step function is the tail's; it stays above the head window
+    have hge : ∀ t, tr.time ≤ t → stepOff z prev.off (tr :: rest) t = stepOff z (typeAt z tr.idx).off rest t := by
+      intro t ht; simp only [stepOff, ht, if_true]
+    have hlt : ∀ t, t < tr.time → stepOff z prev.off (tr :: rest) t = prev.off := by
+      intro t ht
+      have : ¬ tr.time ≤ t := by omega
+      simp only [stepOff, this, if_false]
+    have htail : ∀ t, tr.time ≤ t →
+        (stepOff z (typeAt z tr.idx).off rest t = (typeAt z tr.idx).off ∨
+         (tr.time + max prev.off (typeAt z tr.idx).off < t + stepOff z (typeAt z tr.idx).off rest t ∧
+          tr.time + max prev.off (typeAt z tr.idx).off < t + (typeAt z tr.idx).off)) := by
+      intro t ht
+      cases hrest : rest with
+      | nil => left; simp [stepOff]
+      | cons x2 xs2 =>
+        by_cases c : x2.time ≤ t
+        · right
+          rw [hrest] at hsep' hs'
+          have h1 := later_ge z (x2 :: xs2) _ _ hs' hsep' x2 xs2 rfl t c
+          unfold sepFrom at hsep'
+          simp only [Bool.and_eq_true, decide_eq_true_eq] at hsep'
+          constructor <;> omega
+        · left; simp only [stepOff, c, if_false]
+    by_cases c : ℓ ≤ tr.time + max prev.off (typeAt z tr.idx).off
+    · rw [loop_cons_ret z tr rest prev ℓ hT hp ha c]
+      apply classifies_congr _ (oneOff prev.off tr.time (typeAt z tr.idx).off) ℓ _ _
+        (one_transition_classifies' z tr prev ℓ hT hp ha hnb.1)
+      intro t
+      unfold oneOff
+      by_cases ct : tr.time ≤ t
+      · rw [hge t ct, if_pos ct]
+        rcases htail t ct with h | h
+        · rw [h]
+        · constructor <;> intro hh <;> omega
+      · have ct' : t < tr.time := by omega
+        rw [hlt t ct', if_neg ct]
+    · have c' : tr.time + max prev.off (typeAt z tr.idx).off < ℓ := by omega
+      rw [loop_cons_cont z tr rest prev ℓ hT hp ha c']
+      apply classifies_congr _ (stepOff z (typeAt z tr.idx).off rest) ℓ _ _
+        (ih (typeAt z tr.idx) _ hs' hsep' hnb.2 hr' ha)
+      intro t
+      by_cases ct : tr.time ≤ t
+      · rw [hge t ct]
+      · have ct' : t < tr.time := by omega
+        rw [hlt t ct']
+        have : stepOff z (typeAt z tr.idx).off rest t = (typeAt z tr.idx).off := by
+          cases hrest : rest with
+          | nil => simp [stepOff]
+          | cons x2 xs2 =>
+            have := hx x2 (by rw [hrest]; exact List.mem_cons_self ..)
+            have c2 : ¬ x2.time ≤ t := by omega
+            simp only [stepOff, c2, if_false]
+        rw [this]
+        constructor <;> intro hh <;> omega
+
+theorem offAt_table_stepOff (z : Zone) (t : Int) (hrule : z.rule = none) (hs : Sorted z.transitions) :
+    offAt z t = stepOff z (typeAt z 0).off z.transitions t := by
+  rw [stepOff_eq z _ _ t hs]
+  unfold offAt ltAt tableAt
+  rw [hrule]
+  simp only
+  cases (z.transitions.filter (fun tr => decide (tr.time ≤ t))).getLast? <;> simp
+
+/-- lookup by wall clock on a zone given by its transition table (no rule), any number of transitions -/
+theorem from_local_classifies' (z : Zone) (ℓ : Int) (hrule : z.rule = none) (hs : Sorted z.transitions)
+    (hsep : WellSeparated z) (hnb : NoBoundary z (typeAt z 0).off z.transitions ℓ)
+    (hr : InRange z z.transitions) :
+    Classifies (offAt z) ℓ (z.find_local_time_type_from_local ℓ) := by
+  have hres : z.find_local_time_type_from_local ℓ = outMap (fromLocalLoop z z.transitions (typeAt z 0) ℓ) := by
+    unfold Zone.find_local_time_type_from_local
+    rw [hrule]
+    cases htr : z.transitions with
+    | nil => simp [fromLocalLoop, outMap]
+    | cons x xs =>
+      simp only [List.isEmpty_cons, Bool.false_eq_true, if_false]
+      cases fromLocalLoop z (x :: xs) (typeAt z 0) ℓ <;> rfl
+  rw [hres]
+  apply classifies_congr _ (stepOff z (typeAt z 0).off z.transitions) ℓ _ _
+    (loop_classifies z ℓ z.transitions (typeAt z 0) none hs hsep hnb hr (hr.1 0))
+  intro t
+  rw [offAt_table_stepOff z t hrule hs]
+
 end Chrono.Proofs.TzL
